@@ -253,29 +253,21 @@ func fieldsAgree(rv map[string][]string, jf map[string][]any) string {
 		names[k] = true
 	}
 	for k := range names {
-		var rs []string
-		for _, d := range rv[k] {
-			if d != "0" {
-				rs = append(rs, d)
-			}
-		}
-		var js []any
-		for _, j := range jf[k] {
-			if !isZeroField(j) {
-				js = append(js, j)
-			}
-		}
-		if len(rv[k]) <= 1 && len(jf[k]) <= 1 {
+		rs, js := rv[k], jf[k]
+		if len(rs) <= 1 && len(js) <= 1 {
 			switch {
-			case len(rs) == 0 && len(js) == 0:
 			case len(rs) == 1 && len(js) == 1:
 				if !fieldAgree(rs[0], js[0]) {
 					return fmt.Sprintf("field %q differs: RESP %q, JSON %v", k, rs[0], js[0])
 				}
 			case len(rs) == 1:
-				return fmt.Sprintf("field %q (RESP %q) missing in JSON %v", k, rs[0], jf)
-			default:
-				return fmt.Sprintf("field %q (JSON %v) missing in RESP %v", k, js[0], rv)
+				if rs[0] != "0" {
+					return fmt.Sprintf("field %q (RESP %q) missing in JSON %v", k, rs[0], jf)
+				}
+			case len(js) == 1:
+				if !isZeroField(js[0]) {
+					return fmt.Sprintf("field %q (JSON %v) missing in RESP %v", k, js[0], rv)
+				}
 			}
 			continue
 		}
@@ -283,7 +275,7 @@ func fieldsAgree(rv map[string][]string, jf map[string][]any) string {
 		// only require that what JSON shows exists in RESP, and — when JSON
 		// keeps a list (search replies) — the converse
 		for _, j := range js {
-			found := false
+			found := isZeroField(j)
 			for _, d := range rs {
 				found = found || fieldAgree(d, j)
 			}
@@ -291,9 +283,9 @@ func fieldsAgree(rv map[string][]string, jf map[string][]any) string {
 				return fmt.Sprintf("field %q: JSON value %v has no RESP counterpart in %q", k, j, rs)
 			}
 		}
-		if len(jf[k]) > 1 {
+		if len(js) > 1 {
 			for _, d := range rs {
-				found := false
+				found := d == "0"
 				for _, j := range js {
 					found = found || fieldAgree(d, j)
 				}
